@@ -13,45 +13,41 @@ From RtoscV Require Import Match.PatSpec Match.MatchModel Match.MatchProofs
 Import ListNotations.
 Local Open Scope Z_scope.
 
-(* ---- keys and shapes ------------------------------------------------------------------- *)
-(* an address with every maximal digit run replaced by '#' *)
-Fixpoint shape_aux (in_run : bool) (s : list Z) : list Z :=
-  match s with
-  | [] => []
-  | c :: t => if isdigit c then (if in_run then shape_aux true t else 35 :: shape_aux true t)
-              else c :: shape_aux false t
-  end.
-Definition shape (s : list Z) : list Z := shape_aux false s.
+(* ---- tokens ------------------------------------------------------------------------------ *)
+(* what a token list spells: a literal character itself, a '#N' any non-empty digit string *)
+Inductive tspells : list tok -> list Z -> Prop :=
+| TsNil : tspells [] []
+| TsC : forall c a y, tspells a y -> tspells (TC c :: a) (c :: y)
+| TsH : forall d a y, d <> [] -> digits d -> tspells a y -> tspells (TH :: a) (d ++ y).
 
-Definition nodigits (s : list Z) : Prop := Forall (fun c => isdigit c = false) s.
-
-Lemma shape_aux_nodigit b s t : nodigits s -> shape_aux b (s ++ t) = s ++ shape_aux (if s then b else false) t.
-Proof.
-  revert b. induction s as [|c s IH]; intros b H; [reflexivity|].
-  inversion H as [|? ? Hc Hs]; subst. cbn [app shape_aux]. rewrite Hc. rewrite (IH false Hs).
-  destruct s; reflexivity.
-Qed.
-
-Lemma shape_aux_head b t : starts_with_digit t = false -> shape_aux b t = shape_aux false t.
-Proof. destruct t as [|c t]; [reflexivity|]. cbn. intros ->. reflexivity. Qed.
-
-Lemma shape_aux_digits x : forall t, digits x -> x <> [] -> starts_with_digit t = false ->
-  shape_aux false (x ++ t) = 35 :: shape_aux false t.
-Proof.
-  assert (G : forall x t, digits x -> starts_with_digit t = false -> shape_aux true (x ++ t) = shape_aux false t).
-  { induction x0 as [|c x0 IH]; intros t Hd Ht; [apply shape_aux_head; exact Ht|].
-    inversion Hd as [|? ? Hc Hx]; subst. cbn [app shape_aux]. rewrite Hc. apply IH; assumption. }
-  intros t Hd Hne Ht. destruct x as [|c x]; [congruence|]. inversion Hd as [|? ? Hc Hx]; subst.
-  cbn [app shape_aux]. rewrite Hc. f_equal. apply G; assumption.
-Qed.
-
-(* literal text without digits, no two enumerations adjacent *)
-Fixpoint segs_plain (l : list NameModel.seg) : Prop :=
-  match l with
+(* behind a '#N' comes the end or a literal character that is no digit *)
+Fixpoint tokwf (a : list tok) : Prop :=
+  match a with
   | [] => True
-  | NameModel.Lit s :: r => s <> [] /\ nodigits s /\ segs_plain r
-  | NameModel.Enum _ :: r => match r with NameModel.Enum _ :: _ => False | _ => True end /\ segs_plain r
+  | TH :: r => match r with [] => True | TC c :: _ => isdigit c = false | TH :: _ => False end /\ tokwf r
+  | TC _ :: r => tokwf r
   end.
+
+Definition comparable (a b : list Z) : Prop := prefix a b \/ prefix b a.
+Definition nd (y : list Z) : Prop := match y with [] => True | c :: _ => isdigit c = false end.
+
+Lemma toks_cons s r : toks (s :: r) = (match s with NameModel.Lit t => map TC t | NameModel.Enum _ => [TH] end) ++ toks r.
+Proof. reflexivity. Qed.
+
+Lemma toks_app a b : toks (a ++ b) = toks a ++ toks b.
+Proof. unfold toks. apply flat_map_app. Qed.
+
+Lemma tspells_lit t : forall a y, tspells a y -> tspells (map TC t ++ a) (t ++ y).
+Proof. induction t as [|c t IH]; intros a y H; [exact H|]. cbn [map app]. constructor. apply IH. exact H. Qed.
+
+Lemma tspells_app a : forall b x y, tspells a x -> tspells b y -> tspells (a ++ b) (x ++ y).
+Proof.
+  induction a as [|t a IH]; intros b x y Ha Hb.
+  - inversion Ha; subst. exact Hb.
+  - inversion Ha; subst; cbn [app].
+    + constructor. apply IH; assumption.
+    + rewrite <- app_assoc. constructor; try assumption. apply IH; assumption.
+Qed.
 
 Lemma spells_nil_inv z : spells [] z -> z = [].
 Proof. intros H. inversion H. reflexivity. Qed.
@@ -68,59 +64,108 @@ Proof.
   exists x, y. repeat split; assumption.
 Qed.
 
-Lemma plain_next_nondigit r y t :
-  segs_plain r -> match r with NameModel.Enum _ :: _ => False | _ => True end ->
-  spells (map conv r) y -> starts_with_digit t = false -> starts_with_digit (y ++ t) = false.
+(* whatever spells a name (as a C05 pattern) is spelled by its tokens *)
+Lemma spells_tspells l : forall x, spells (map conv l) x -> tspells (toks l) x.
 Proof.
-  intros Hp Hne Hs Ht. destruct r as [|[s|n] r]; [| |contradiction].
-  - apply spells_nil_inv in Hs. subst. exact Ht.
-  - cbn [map conv] in Hs. apply spells_lit_inv in Hs. destruct Hs as [y' [-> _]].
-    destruct Hp as [Hne' [Hd _]]. destruct s as [|c s]; [congruence|]. inversion Hd; subst.
-    cbn. assumption.
-Qed.
-
-(* whatever spells a plain name has the name's key as its shape *)
-Lemma spells_shape l : forall x t b,
-  segs_plain l -> (b = true -> match l with NameModel.Enum _ :: _ => False | _ => True end) ->
-  spells (map conv l) x -> starts_with_digit t = false ->
-  shape_aux b (x ++ t) = key l ++ shape_aux false t.
-Proof.
-  induction l as [|[s|n] l IH]; intros x t b Hp Hb Hs Ht.
-  - apply spells_nil_inv in Hs. subst. cbn [app key map concat]. apply shape_aux_head. exact Ht.
+  induction l as [|[s|n] l IH]; intros x Hs.
+  - apply spells_nil_inv in Hs. subst. constructor.
   - cbn [map conv] in Hs. apply spells_lit_inv in Hs. destruct Hs as [y [-> Hy]].
-    destruct Hp as [Hne [Hd Hr]]. rewrite <- app_assoc. rewrite (shape_aux_nodigit b s _ Hd).
-    destruct s as [|c s]; [congruence|].
-    rewrite (IH y t false Hr ltac:(discriminate) Hy Ht).
-    unfold key. cbn [map concat]. rewrite <- app_assoc. reflexivity.
+    rewrite toks_cons. apply tspells_lit. apply IH. exact Hy.
   - cbn [map conv] in Hs. apply spells_enum_inv in Hs. destruct Hs as [x1 [y [-> [Hne [Hdg Hy]]]]].
-    destruct Hp as [Hnx Hr]. rewrite <- app_assoc.
-    assert (b = false) by (destruct b; [exfalso; apply (Hb eq_refl) | reflexivity]). subst b.
-    assert (Hyt : starts_with_digit (y ++ t) = false) by (eapply plain_next_nondigit; eassumption).
-    rewrite (shape_aux_digits x1 (y ++ t) Hdg Hne Hyt).
-    rewrite (IH y t false Hr ltac:(discriminate) Hy Ht). reflexivity.
+    rewrite toks_cons. cbn [app]. constructor; try assumption. apply IH. exact Hy.
 Qed.
 
-(* shaping preserves "is a prefix of" *)
-Lemma shape_prefix m : forall b t, prefix (shape_aux b m) (shape_aux b (m ++ t)).
+Lemma tokwf_lit t a : tokwf (map TC t ++ a) <-> tokwf a.
+Proof. induction t as [|c t IH]; [reflexivity|]. cbn [map app tokwf]. exact IH. Qed.
+
+Lemma dsegs_tokwf l : dsegs_wf l -> tokwf (toks l).
 Proof.
-  induction m as [|c m IH]; intros b t; [exact I|].
-  cbn [app shape_aux]. destruct (isdigit c).
-  - destruct b; [apply IH | split; [reflexivity | apply IH]].
-  - split; [reflexivity | apply IH].
+  induction l as [|[s|n] l IH]; intros H; [exact I| |].
+  - destruct H as [_ [_ Hr]]. rewrite toks_cons. apply tokwf_lit. apply IH. exact Hr.
+  - destruct H as [_ [Hnx Hr]]. rewrite toks_cons. cbn [app tokwf]. split; [|apply IH; exact Hr].
+    destruct l as [|[s|n'] l]; [exact I| |contradiction].
+    destruct Hr as [Hne _]. destruct s as [|c s]; [congruence|]. rewrite toks_cons. cbn [map app]. exact Hnx.
 Qed.
 
-(* an address without digits spells only names without enumerations, and then
-   it is the name's text itself *)
-Lemma spells_nodigits l : forall x, spells (map conv l) x -> nodigits x ->
-  x = key l /\ Forall (fun s => match s with NameModel.Lit _ => True | _ => False end) l.
+Lemma tokwf_snoc a c : isdigit c = false -> tokwf a -> tokwf (a ++ [TC c]).
 Proof.
-  induction l as [|[s|n] l IH]; intros x Hs Hn.
-  - apply spells_nil_inv in Hs. subst. split; [reflexivity | constructor].
-  - cbn [map conv] in Hs. apply spells_lit_inv in Hs. destruct Hs as [y [-> Hy]].
-    apply Forall_app in Hn. destruct Hn as [_ Hy']. destruct (IH y Hy Hy') as [-> Hl].
-    split; [reflexivity | constructor; [exact I | exact Hl]].
-  - exfalso. cbn [map conv] in Hs. apply spells_enum_inv in Hs. destruct Hs as [x1 [y [-> [Hne [Hdg _]]]]].
-    destruct x1 as [|c x1]; [congruence|]. inversion Hdg; subst. inversion Hn; subst. congruence.
+  intros Hc. induction a as [|t a IH]; intros H; [exact I|]. destruct t as [d|]; cbn [app tokwf] in *.
+  - apply IH. exact H.
+  - destruct H as [Hn Hr]. split; [|apply IH; exact Hr].
+    destruct a as [|[d|] a]; cbn [app]; [exact Hc | exact Hn | contradiction].
+Qed.
+
+Lemma clashb_nil_r a : clashb a [] = true.
+Proof. destruct a as [|[c|] a]; reflexivity. Qed.
+
+Lemma tspells_nil a : tspells a [] -> a = [].
+Proof.
+  intros H. inversion H as [| |d a' y Hne Hd Hy E1 E2]; subst; [reflexivity|].
+  destruct d; [congruence | discriminate].
+Qed.
+
+(* two digit runs at the same place of two comparable strings, each followed by
+   the end or by a non-digit: the runs are the same, or one string ends with its run *)
+Lemma digit_runs_align : forall d1 d2 y1 y2,
+  digits d1 -> digits d2 -> nd y1 -> nd y2 -> comparable (d1 ++ y1) (d2 ++ y2) ->
+  (d1 = d2 /\ comparable y1 y2) \/ y1 = [] \/ y2 = [].
+Proof.
+  induction d1 as [|c1 d1 IH]; intros d2 y1 y2 H1 H2 N1 N2 Hc.
+  - destruct d2 as [|c2 d2]; [left; split; [reflexivity | exact Hc]|].
+    destruct y1 as [|c y1]; [right; left; reflexivity|]. exfalso.
+    inversion H2 as [|? ? Hd _]; subst. cbn [app nd] in *.
+    destruct Hc as [[E _]|[E _]]; subst; congruence.
+  - inversion H1 as [|? ? Hd1 H1']; subst. destruct d2 as [|c2 d2].
+    + destruct y2 as [|c y2]; [right; right; reflexivity|]. exfalso. cbn [app nd] in *.
+      destruct Hc as [[E _]|[E _]]; subst; congruence.
+    + inversion H2 as [|? ? Hd2 H2']; subst. cbn [app] in Hc.
+      assert (E : c1 = c2 /\ comparable (d1 ++ y1) (d2 ++ y2)).
+      { destruct Hc as [[E P]|[E P]]; subst; split; try reflexivity; [left | right]; exact P. }
+      destruct E as [-> Hc']. destruct (IH d2 y1 y2 H1' H2' N1 N2 Hc') as [[-> Hy]|[E|E]]; auto.
+Qed.
+
+Lemma tokwf_tail_nd a y : match a with [] => True | TC c :: _ => isdigit c = false | TH :: _ => False end ->
+  tspells a y -> nd y.
+Proof.
+  intros Hw Hs. destruct a as [|[c|] a]; inversion Hs; subst; [exact I | exact Hw | contradiction].
+Qed.
+
+(* names that spell comparable strings clash *)
+Lemma clash_sound : forall a b x1 x2,
+  tokwf a -> tokwf b -> tspells a x1 -> tspells b x2 -> comparable x1 x2 -> clashb a b = true.
+Proof.
+  induction a as [|t a IH]; intros b x1 x2 Wa Wb S1 S2 Hc; [reflexivity|].
+  destruct b as [|u b]; [apply clashb_nil_r|].
+  destruct t as [c|], u as [d|]; cbn [clashb tokwf] in *.
+  - inversion S1; subst. inversion S2; subst.
+    assert (E : c = d /\ comparable y y0).
+    { destruct Hc as [[E P]|[E P]]; subst; split; try reflexivity; [left | right]; exact P. }
+    destruct E as [-> Hc']. rewrite Z.eqb_refl. cbn [andb]. eapply IH; eassumption.
+  - inversion S1; subst. inversion S2 as [| |dd b' y2 Hne Hd Hy]; subst.
+    destruct dd as [|d0 dd]; [congruence|]. inversion Hd; subst. cbn [app] in Hc.
+    destruct Hc as [[E _]|[E _]]; subst; assumption.
+  - inversion S2; subst. inversion S1 as [| |dd a' y1 Hne Hd Hy]; subst.
+    destruct dd as [|d0 dd]; [congruence|]. inversion Hd; subst. cbn [app] in Hc.
+    destruct Hc as [[E _]|[E _]]; subst; assumption.
+  - inversion S1 as [| |d1 a' y1 Hne1 Hd1 Hy1]; subst. inversion S2 as [| |d2 b' y2 Hne2 Hd2 Hy2]; subst.
+    destruct Wa as [Na Wa]. destruct Wb as [Nb Wb].
+    destruct (digit_runs_align d1 d2 y1 y2 Hd1 Hd2 (tokwf_tail_nd a y1 Na Hy1) (tokwf_tail_nd b y2 Nb Hy2) Hc)
+      as [[_ Hy]|[E|E]].
+    + eapply IH; eassumption.
+    + subst. rewrite (tspells_nil a Hy1). reflexivity.
+    + subst. rewrite (tspells_nil b Hy2). apply clashb_nil_r.
+Qed.
+
+(* a name whose spelling begins a literal text clashes with every name that
+   begins with that text *)
+Lemma clash_lit_prefix : forall a x t c, tspells a x -> prefix x t -> clashb a (map TC t ++ c) = true.
+Proof.
+  induction a as [|u a IH]; intros x t c S P; [reflexivity|].
+  inversion S as [|c0 a' y Hy|d a' y Hne Hd Hy]; subst.
+  - destruct t as [|c1 t]; [contradiction|]. destruct P as [-> P]. cbn [map app clashb].
+    rewrite Z.eqb_refl. cbn [andb]. eapply IH; eassumption.
+  - destruct d as [|d0 d]; [congruence|]. inversion Hd; subst. cbn [app] in P.
+    destruct t as [|c1 t]; [contradiction|]. destruct P as [-> P]. cbn [map app clashb]. assumption.
 Qed.
 
 (* ---- one port: what a match tells about the address ------------------------------------ *)
@@ -128,10 +173,10 @@ Qed.
 Definition pok (q : sport) : Prop :=
   match q with
   | SPort sg a _ None =>
-      dsegs_wf sg /\ segs_plain sg /\ last_not_slash (map conv sg) /\
+      dsegs_wf sg /\ last_not_slash (map conv sg) /\
       exists tys, a = render_types tys /\ types_ok tys
   | SPort sg a _ (Some _) =>
-      a = [] /\ exists c, sg = comps_segs [c] /\ dcomp c /\ nodigits (fst c)
+      a = [] /\ exists cs, sg = comps_segs cs /\ cs <> [] /\ Forall dcomp cs
   end.
 
 Lemma spells_chars (P : Z -> Prop) l :
@@ -150,45 +195,43 @@ Definition no35 (c : Z) : Prop := c <> 35.
 Lemma dchar_no35 c : dchar c -> no35 c. Proof. unfold dchar, no35. lia. Qed.
 Lemma digit_no35 c : isdigit c = true -> no35 c. Proof. intros H. apply isdigit_range in H. unfold no35. lia. Qed.
 
-Lemma comp_conv_plain c : nodigits (fst c) -> fst c <> [] -> segs_plain (comp_conv c).
-Proof. destruct c as [t [n|]]; cbn [fst comp_conv segs_plain]; intros; repeat split; auto. Qed.
-
-Lemma comp_key c : key (comps_segs [c]) = key (comp_conv c) ++ [47].
+Lemma comps_toks cs : cs <> [] -> toks (comps_segs cs) = toks (comps_conv cs) ++ [TC 47].
 Proof.
-  destruct c as [t [n|]]; unfold key; cbn [comps_segs flat_map comp_segs app comp_conv map concat];
-    rewrite ?app_nil_r, <- ?app_assoc; reflexivity.
+  induction cs as [|c r IH]; intros Hne; [congruence|].
+  rewrite comps_segs_cons, toks_app.
+  assert (H1 : toks (comp_segs c) = toks (comp_conv c) ++ [TC 47]).
+  { destruct c as [t [n|]]; unfold toks; cbn [comp_segs comp_conv flat_map map app];
+      rewrite ?app_nil_r, ?map_app, <- ?app_assoc; reflexivity. }
+  rewrite H1. destruct r as [|c' r']; cbn [comps_conv].
+  - cbn [comps_segs flat_map]. unfold toks at 2. cbn [flat_map]. rewrite !app_nil_r. reflexivity.
+  - rewrite IH by discriminate. rewrite toks_app, toks_cons. cbn [map]. rewrite <- !app_assoc. reflexivity.
 Qed.
 
-(* a matching port: the shaped address begins with the port's key; and the
-   address begins with a '#'-free text that IS the key if it has no digits *)
-Lemma match_shape q m r pe :
+(* a matching port: the address begins with a '#'-free text that the port's
+   tokens spell *)
+Lemma match_toks q m r pe :
   pok q -> addr_ok m -> match_path (sname q) m = MRet r pe ->
-  (exists u, shape m = skey q ++ u) /\
-  (exists m', prefix m' m /\ Forall no35 m' /\ (nodigits m' -> m' = skey q)).
+  tokwf (stoks q) /\ exists m', prefix m' m /\ Forall no35 m' /\ tspells (stoks q) m'.
 Proof.
-  intros Hq Haddr Hm. destruct q as [sg a mt [l|]]; cbn [pok sname skey] in *.
-  - destruct Hq as [-> [c [-> [Hc Hnd]]]].
-    pose proof (comp_conv_wf c Hc) as Hw.
-    set (p := {| segs := map conv (comp_conv c); subtree := true; types := None |}).
-    assert (Hr : render_name (comps_segs [c]) [] = PatSpec.render p).
-    { unfold PatSpec.render, render_tail, p, render_name. fold (flatten (comps_segs [c])).
-      cbn [segs subtree types render_types app]. rewrite render_conv, comp_flatten, !app_nil_r. reflexivity. }
+  intros Hq Haddr Hm. destruct q as [sg a mt [l|]]; cbn [pok sname stoks] in *.
+  - destruct Hq as [-> [cs [-> [Hcs Hc]]]].
+    pose proof (comps_conv_wf cs Hc) as Hw.
+    set (p := {| segs := map conv (comps_conv cs); subtree := true; types := None |}).
+    assert (Hr : render_name (comps_segs cs) [] = PatSpec.render p).
+    { unfold PatSpec.render, render_tail, p, render_name. fold (flatten (comps_segs cs)).
+      cbn [segs subtree types render_types app]. rewrite render_conv, (comps_flatten cs Hcs), !app_nil_r. reflexivity. }
     rewrite Hr in Hm.
     assert (Hwf : wf_pat p).
     { unfold wf_pat, p. cbn [segs subtree types]. repeat split;
         [apply conv_seg_ok; exact Hw | apply conv_enum_sep; exact Hw | intros E; discriminate]. }
     destruct (path_sound p m r pe Hwf Haddr Hm) as [_ Hsp].
     unfold path_spec, p in Hsp. cbn [subtree segs] in Hsp. destruct Hsp as [x [Hx ->]].
-    pose proof (comp_conv_plain c Hnd (proj1 Hc)) as Hpl.
-    split.
-    + exists (shape pe). unfold shape. rewrite (spells_shape _ x (47 :: pe) false Hpl ltac:(discriminate) Hx eq_refl).
-      rewrite comp_key, <- app_assoc. reflexivity.
-    + exists (x ++ [47]). split; [|split].
-      * apply prefix_app. exists pe. rewrite <- app_assoc. reflexivity.
-      * apply Forall_app. split; [apply (spells_chars no35 _ dchar_no35 digit_no35 Hw x Hx) | constructor; [unfold no35; lia | constructor]].
-      * intros Hn. apply Forall_app in Hn. destruct Hn as [Hn _].
-        destruct (spells_nodigits _ x Hx Hn) as [-> _]. rewrite comp_key. reflexivity.
-  - destruct Hq as [Hw [Hpl [Hls [tys [-> Ht]]]]].
+    rewrite (comps_toks cs Hcs). split; [apply tokwf_snoc; [reflexivity | apply dsegs_tokwf; exact Hw]|].
+    exists (x ++ [47]). split; [|split].
+    + apply prefix_app. exists pe. rewrite <- app_assoc. reflexivity.
+    + apply Forall_app. split; [apply (spells_chars no35 _ dchar_no35 digit_no35 Hw x Hx) | constructor; [unfold no35; lia | constructor]].
+    + apply tspells_app; [apply spells_tspells; exact Hx | repeat constructor].
+  - destruct Hq as [Hw [Hls [tys [-> Ht]]]].
     set (p := {| segs := map conv sg; subtree := false; types := tys |}).
     assert (Hr : render_name sg (render_types tys) = PatSpec.render p).
     { unfold PatSpec.render, render_tail, p, render_name. fold (flatten sg).
@@ -199,29 +242,20 @@ Proof.
         [apply conv_seg_ok; exact Hw | apply conv_enum_sep; exact Hw | intros _; exact Hls | exact Ht]. }
     destruct (path_sound p m r pe Hwf Haddr Hm) as [_ Hsp].
     unfold path_spec, p in Hsp. cbn [subtree segs] in Hsp. destruct Hsp as [Hx ->].
-    split.
-    + exists []. unfold shape. rewrite <- (app_nil_r m) at 1.
-      rewrite (spells_shape _ m [] false Hpl ltac:(discriminate) Hx eq_refl). reflexivity.
-    + exists m. split; [apply prefix_refl | split].
-      * apply (spells_chars no35 _ dchar_no35 digit_no35 Hw m Hx).
-      * intros Hn. apply (spells_nodigits _ m Hx Hn).
+    split; [apply dsegs_tokwf; exact Hw|].
+    exists m. split; [apply prefix_refl | split].
+    + apply (spells_chars no35 _ dchar_no35 digit_no35 Hw m Hx).
+    + apply spells_tspells. exact Hx.
 Qed.
 
 (* ---- the raw name: its leading literal text --------------------------------------------- *)
 Fixpoint lead (l : list NameModel.seg) : list Z :=
   match l with NameModel.Lit s :: r => s ++ lead r | _ => [] end.
 
-Lemma lead_key l : prefix (lead l) (key l).
+Lemma lead_toks l : exists c, toks l = map TC (lead l) ++ c.
 Proof.
-  induction l as [|[s|n] l IH]; [exact I| |exact I].
-  cbn [lead]. unfold key. cbn [map concat]. fold (key l). apply prefix_app.
-  apply prefix_app in IH. destruct IH as [r ->]. exists r. rewrite app_assoc. reflexivity.
-Qed.
-
-Lemma lead_nodigits l : segs_plain l -> nodigits (lead l).
-Proof.
-  induction l as [|[s|n] l IH]; intros H; [constructor| |constructor].
-  destruct H as [_ [Hd Hr]]. cbn [lead]. apply Forall_app. split; [exact Hd | apply IH; exact Hr].
+  induction l as [|[s|n] l IH]; [exists []; reflexivity| |exists (toks (NameModel.Enum n :: l)); reflexivity].
+  destruct IH as [c E]. exists c. rewrite toks_cons, E. cbn [lead]. rewrite map_app, <- app_assoc. reflexivity.
 Qed.
 
 (* the raw name is its leading literal text, followed by nothing, a '#' or a ':' *)
@@ -256,28 +290,27 @@ Proof.
 Qed.
 
 Definition pargs_ok (q : sport) : Prop := match q with SPort _ a _ _ => a = [] \/ hd0 a = 58 end.
-Definition pplain (q : sport) : Prop := match q with SPort sg _ _ _ => segs_plain sg end.
 
-(* ---- two siblings answering one path have prefix-related keys ---------------------------- *)
+(* ---- two siblings answering one path clash ---------------------------------------------------- *)
 Lemma two_matches q q' m r pe r' pe' :
   pok q -> pok q' -> addr_ok m ->
   match_path (sname q) m = MRet r pe -> match_path (sname q') m = MRet r' pe' ->
-  prefix (skey q) (skey q') \/ prefix (skey q') (skey q).
+  clashb (stoks q) (stoks q') = true.
 Proof.
   intros Hq Hq' Ha Hm Hm'.
-  destruct (match_shape q m r pe Hq Ha Hm) as [[u Hu] _].
-  destruct (match_shape q' m r' pe' Hq' Ha Hm') as [[u' Hu'] _].
-  apply (prefix_comparable _ _ (shape m)); apply prefix_app; eauto.
+  destruct (match_toks q m r pe Hq Ha Hm) as [W1 [m1 [P1 [_ S1]]]].
+  destruct (match_toks q' m r' pe' Hq' Ha Hm') as [W2 [m2 [P2 [_ S2]]]].
+  apply (clash_sound _ _ m1 m2 W1 W2 S1 S2). apply (prefix_comparable _ _ m); assumption.
 Qed.
 
 Lemma match_and_rawprefix q q' m r pe :
-  pok q -> pplain q' -> pargs_ok q' -> addr_ok m ->
+  pok q -> pargs_ok q' -> addr_ok m ->
   match_path (sname q) m = MRet r pe -> NameModel.prefixb m (sname q') = true ->
-  prefix (skey q) (skey q').
+  clashb (stoks q) (stoks q') = true.
 Proof.
-  intros Hq Hpl Hargs Ha Hm Hp.
-  destruct (match_shape q m r pe Hq Ha Hm) as [_ [m' [Hm' [H35 Hk]]]].
-  destruct q' as [sg' a' mt' s']. cbn [sname skey pplain pargs_ok] in *.
+  intros Hq Hargs Ha Hm Hp.
+  destruct (match_toks q m r pe Hq Ha Hm) as [_ [m' [Hm' [H35 Hk]]]].
+  destruct q' as [sg' a' mt' s']. cbn [sname stoks pargs_ok] in *.
   unfold render_name in Hp. fold (flatten sg') in Hp.
   destruct (raw_lead sg' a' Hargs) as [rest [E Hrest]]. rewrite E in Hp.
   assert (Hpm : prefix m (lead sg' ++ rest)).
@@ -288,23 +321,27 @@ Proof.
     destruct Hrest as [->|[Hr|Hr]]; [left; reflexivity | |]; right; rewrite Hr; intros Hin.
     - rewrite Forall_forall in H35. apply (H35 35 Hin). reflexivity.
     - pose proof (prefix_forall m' m Hm' Ha) as Ha'. rewrite Forall_forall in Ha'. destruct (Ha' 58 Hin) as [_ Hc]. apply Hc. reflexivity. }
-  rewrite <- (Hk (prefix_forall m' (lead sg') Hm'l (lead_nodigits sg' Hpl))).
-  eapply prefix_trans'; [exact Hm'l | apply lead_key].
+  destruct (lead_toks sg') as [c Ec]. rewrite Ec. eapply clash_lit_prefix; eassumption.
 Qed.
 
 (* ---- the tables -------------------------------------------------------------------------- *)
-(* no key is a prefix of the key of another port of the table *)
+(* no two ports of the table clash *)
 Definition keys_free (l : list sport) : Prop :=
-  forall i j q q', nth_error l i = Some q -> nth_error l j = Some q' -> prefix (skey q) (skey q') -> i = j.
+  forall i j q q', nth_error l i = Some q -> nth_error l j = Some q' -> clashb (stoks q) (stoks q') = true -> i = j.
 
-Lemma pok_plain q : pok q -> pplain q /\ pargs_ok q.
+Lemma clashb_sym a : forall b, clashb a b = clashb b a.
 Proof.
-  destruct q as [sg a mt [l|]]; cbn [pok pplain pargs_ok].
-  - intros [-> [c [-> [Hc Hnd]]]]. split; [|left; reflexivity].
-    destruct c as [t [n|]]; cbn [comps_segs flat_map comp_segs app segs_plain fst] in *; destruct Hc as [Hne _].
-    + repeat split; auto; try discriminate. constructor; [reflexivity | constructor].
-    + repeat split; auto. * intros E; apply app_eq_nil in E; destruct E; discriminate. * apply Forall_app. split; [exact Hnd | constructor; [reflexivity | constructor]].
-  - intros [_ [Hpl [_ [tys [-> Ht]]]]]. split; [exact Hpl|].
+  induction a as [|t a IH]; intros b; [symmetry; apply clashb_nil_r|].
+  destruct b as [|u b]; [rewrite clashb_nil_r; reflexivity|]. destruct t as [c|], u as [d|]; cbn [clashb]; try reflexivity.
+  - rewrite (Z.eqb_sym c d), IH. reflexivity.
+  - apply IH.
+Qed.
+
+Lemma pok_args q : pok q -> pargs_ok q.
+Proof.
+  destruct q as [sg a mt [l|]]; cbn [pok pargs_ok].
+  - intros [-> _]. left; reflexivity.
+  - intros [_ [_ [tys [-> Ht]]]].
     destruct (render_types_shape tys Ht) as [->|[X ->]]; [left; reflexivity | right; reflexivity].
 Qed.
 
@@ -313,9 +350,7 @@ Proof.
   intros Hl Hk j j' q q' m ty pe pe' E E' Ha Hm Hm'.
   rewrite Forall_forall in Hl.
   destruct (rtosc_match_path_of _ _ _ _ Hm) as [r Hr]. destruct (rtosc_match_path_of _ _ _ _ Hm') as [r' Hr'].
-  destruct (two_matches q q' m r pe r' pe' (Hl _ (nth_error_In _ _ E)) (Hl _ (nth_error_In _ _ E')) Ha Hr Hr') as [H|H].
-  - exact (Hk j j' q q' E E' H).
-  - symmetry. exact (Hk j' j q' q E' E H).
+  exact (Hk j j' q q' E E' (two_matches q q' m r pe r' pe' (Hl _ (nth_error_In _ _ E)) (Hl _ (nth_error_In _ _ E')) Ha Hr Hr')).
 Qed.
 
 Theorem keys_lookup_disjoint l : Forall pok l -> keys_free l -> lookup_disjoint l.
@@ -324,53 +359,46 @@ Proof.
   rewrite Forall_forall in Hl.
   pose proof (Hl _ (nth_error_In _ _ E)) as Hq. pose proof (Hl _ (nth_error_In _ _ E')) as Hq'.
   destruct Hans as [[r' [pe' Hm']] | [_ Hp]].
-  - destruct (two_matches q q' m r pe r' pe' Hq Hq' Ha Hm Hm') as [H|H].
-    + exact (Hk j j' q q' E E' H).
-    + symmetry. exact (Hk j' j q' q E' E H).
-  - destruct (pok_plain q' Hq') as [Hpl Hargs].
-    exact (Hk j j' q q' E E' (match_and_rawprefix q q' m r pe Hq Hpl Hargs Ha Hm Hp)).
+  - exact (Hk j j' q q' E E' (two_matches q q' m r pe r' pe' Hq Hq' Ha Hm Hm')).
+  - exact (Hk j j' q q' E E' (match_and_rawprefix q q' m r pe Hq (pok_args q' Hq') Ha Hm Hp)).
 Qed.
 
 (* ======================================================================== *)
 (* the decidable predicate                                                   *)
 (* ======================================================================== *)
 (* ---- reflection ---------------------------------------------------------------------------- *)
-Lemma litcharb_ok c : litcharb c = true -> dchar c /\ isdigit c = false.
+Lemma litcharb_ok c : litcharb c = true -> dchar c.
 Proof.
   unfold litcharb, dchar. rewrite !andb_true_iff, !negb_true_iff, !orb_false_iff.
-  intros [[[H0 H1] [[[A B] C] D]] E]. apply Z.ltb_lt in H0. apply Z.ltb_lt in H1.
+  intros [[H0 H1] [[[A B] C] D]]. apply Z.ltb_lt in H0. apply Z.ltb_lt in H1.
   apply Z.eqb_neq in A. apply Z.eqb_neq in B. apply Z.eqb_neq in C. apply Z.eqb_neq in D.
   repeat split; assumption.
 Qed.
 
 Lemma text_chars t : forallb litcharb t = true ->
-  Forall dchar t /\ nodigits t /\ has_char 35 t = false /\ has_char 58 t = false.
+  Forall dchar t /\ has_char 35 t = false /\ has_char 58 t = false.
 Proof.
   induction t as [|c t IH]; intros H; [repeat split; constructor|].
   cbn [forallb] in H. apply andb_true_iff in H. destruct H as [Hc Ht].
-  destruct (litcharb_ok c Hc) as [Hd Hn]. destruct (IH Ht) as [A [B [C D]]].
+  pose proof (litcharb_ok c Hc) as Hd. destruct (IH Ht) as [A [C D]].
   repeat split; try (constructor; assumption); cbn [has_char]; unfold dchar in Hd.
   - rewrite C. replace (c =? 35) with false by (symmetry; apply Z.eqb_neq; lia). reflexivity.
   - rewrite D. replace (c =? 58) with false by (symmetry; apply Z.eqb_neq; lia). reflexivity.
 Qed.
 
-Lemma nodigits_start s : s <> [] -> nodigits s -> starts_with_digit s = false.
-Proof. destruct s as [|c s]; [congruence|]. intros _ H. inversion H; subst. assumption. Qed.
-
-Lemma segs_okb_ok l : segs_okb l = true -> dsegs_wf l /\ segs_plain l /\ segs_wf l.
+Lemma segs_okb_ok l : segs_okb l = true -> dsegs_wf l /\ segs_wf l.
 Proof.
   induction l as [|[s|n] l IH]; intros H; [repeat split|cbn [segs_okb] in H|cbn [segs_okb] in H].
   - apply andb_true_iff in H. destruct H as [H Hr]. apply andb_true_iff in H. destruct H as [Hne Hs].
-    destruct (IH Hr) as [A [B C]]. destruct (text_chars s Hs) as [Hd [Hn [H35 H58]]].
+    destruct (IH Hr) as [A C]. destruct (text_chars s Hs) as [Hd [H35 H58]].
     assert (Hne' : s <> []) by (destruct s; [discriminate | discriminate]).
-    cbn [dsegs_wf segs_plain segs_wf]. repeat split; assumption.
+    cbn [dsegs_wf segs_wf]. repeat split; assumption.
   - apply andb_true_iff in H. destruct H as [H Hr]. apply andb_true_iff in H. destruct H as [H Hnx].
     apply andb_true_iff in H. destruct H as [H0 H1]. apply Z.leb_le in H0. apply Z.ltb_lt in H1.
-    destruct (IH Hr) as [A [B C]].
-    cbn [dsegs_wf segs_plain segs_wf]. repeat split; try assumption; try lia;
-      destruct l as [|[s|n'] l]; try exact I; try discriminate.
-    + destruct B as [Hne [Hn _]]. apply nodigits_start; assumption.
-    + destruct B as [Hne [Hn _]]. apply nodigits_start; assumption.
+    destruct (IH Hr) as [A C].
+    cbn [dsegs_wf segs_wf]. repeat split; try assumption; try lia;
+      destruct l as [|[s|n'] l]; try exact I; try discriminate;
+      apply negb_true_iff in Hnx; exact Hnx.
 Qed.
 
 (* ':'t1':'t2... : every ':'-led NUL-free string is a rendered type list *)
@@ -431,37 +459,52 @@ Proof.
 Qed.
 
 Lemma text_okb_ok t0 : text_okb t0 = true ->
-  t0 <> [] /\ Forall dchar t0 /\ nodigits t0 /\ has_char 35 t0 = false /\ has_char 58 t0 = false /\ ~ In 47 t0.
+  t0 <> [] /\ Forall dchar t0 /\ has_char 35 t0 = false /\ has_char 58 t0 = false /\ ~ In 47 t0.
 Proof.
   unfold text_okb. intros H. apply andb_true_iff in H. destruct H as [H H47]. apply andb_true_iff in H.
-  destruct H as [Hne Hc]. destruct (text_chars t0 Hc) as [A [B [C D]]].
+  destruct H as [Hne Hc]. destruct (text_chars t0 Hc) as [A [C D]].
   apply negb_true_iff in H47. repeat split; try assumption; [destruct t0; discriminate | apply has_char_in; exact H47].
 Qed.
 
-Lemma sub_okb_ok sg a : sub_okb sg a = true ->
-  a = [] /\ exists c, sg = comps_segs [c] /\ dcomp c /\ nodigits (fst c) /\ comp_wf c.
+Definition comp_good (c : comp) : Prop := dcomp c /\ comp_wf c.
+
+Lemma comps_okb_ok : forall k sg, (length sg <= k)%nat -> comps_okb sg = true ->
+  exists cs, sg = comps_segs cs /\ Forall comp_good cs.
 Proof.
-  unfold sub_okb. intros H. apply andb_true_iff in H. destruct H as [Ha H].
+  induction k as [|k IH]; intros sg Hlen H.
+  - destruct sg; [exists []; split; [reflexivity | constructor] | cbn [length] in Hlen; lia].
+  - destruct sg as [|[t|n] r]; [exists []; split; [reflexivity | constructor] | | discriminate].
+    cbn [length] in Hlen.
+    assert (Hplain : (last t 0 =? 47) && text_okb (removelast t) && comps_okb r = true ->
+                     exists cs, NameModel.Lit t :: r = comps_segs cs /\ Forall comp_good cs).
+    { intros H'. apply andb_true_iff in H'. destruct H' as [H' Hr]. apply andb_true_iff in H'. destruct H' as [Hl Ht].
+      apply Z.eqb_eq in Hl. destruct (text_okb_ok _ Ht) as [Hne [Hd [H35 [H58 H47]]]].
+      assert (Htne : t <> []) by (intros ->; cbn in Hne; congruence).
+      destruct (IH r ltac:(lia) Hr) as [cs [-> Hcs]].
+      exists ((removelast t, None) :: cs). split.
+      - rewrite comps_segs_cons. cbn [comp_segs app]. rewrite <- Hl, <- app_removelast_last by exact Htne. reflexivity.
+      - constructor; [|exact Hcs]. unfold comp_good, dcomp, comp_wf. cbn [fst snd]. repeat split; assumption. }
+    destruct r as [|[t2|n2] r2]; cbn [comps_okb] in H.
+    + apply Hplain. exact H.
+    + apply Hplain. exact H.
+    + destruct r2 as [|[t3|n3] r3]; [discriminate| |discriminate].
+      destruct t3 as [|c [|? ?]]; [discriminate| |discriminate].
+      apply andb_true_iff in H. destruct H as [H Hr]. apply andb_true_iff in H. destruct H as [H H1].
+      apply andb_true_iff in H. destruct H as [H H0]. apply andb_true_iff in H. destruct H as [Hc Ht].
+      apply Z.eqb_eq in Hc. subst c. apply Z.leb_le in H0. apply Z.ltb_lt in H1.
+      destruct (text_okb_ok _ Ht) as [Hne [Hd [H35 [H58 H47]]]].
+      cbn [length] in Hlen. destruct (IH r3 ltac:(lia) Hr) as [cs [-> Hcs]].
+      exists ((t, Some n2) :: cs). split; [reflexivity|].
+      constructor; [|exact Hcs]. unfold comp_good, dcomp, comp_wf. cbn [fst snd]. repeat split; try assumption; lia.
+Qed.
+
+Lemma sub_okb_ok sg a : sub_okb sg a = true ->
+  a = [] /\ exists cs, sg = comps_segs cs /\ cs <> [] /\ Forall comp_good cs.
+Proof.
+  unfold sub_okb. intros H. apply andb_true_iff in H. destruct H as [H Hc]. apply andb_true_iff in H. destruct H as [Ha Hne].
   split; [destruct a; [reflexivity | discriminate]|].
-  destruct sg as [|[t|n] [|[t2|n2] [|[t3|n3] [|? ?]]]]; try discriminate.
-  - apply andb_true_iff in H. destruct H as [Hl Ht]. apply Z.eqb_eq in Hl.
-    destruct (text_okb_ok _ Ht) as [Hne [Hd [Hn [H35 [H58 H47]]]]].
-    assert (Htne : t <> []) by (intros ->; cbn in Hne; congruence).
-    exists (removelast t, None). split; [|split; [|split]].
-    + cbn [comps_segs flat_map comp_segs app]. rewrite <- Hl, <- app_removelast_last by exact Htne. reflexivity.
-    + unfold dcomp. cbn [fst snd]. repeat split; assumption.
-    + exact Hn.
-    + unfold comp_wf. cbn [fst snd]. repeat split; assumption.
-  - destruct t3 as [|c [|? ?]]; try discriminate.
-    apply andb_true_iff in H. destruct H as [H H1]. apply andb_true_iff in H. destruct H as [H H0].
-    apply andb_true_iff in H. destruct H as [Hc Ht]. apply Z.eqb_eq in Hc. subst c.
-    apply Z.leb_le in H0. apply Z.ltb_lt in H1.
-    destruct (text_okb_ok _ Ht) as [Hne [Hd [Hn [H35 [H58 H47]]]]].
-    exists (t, Some n2). split; [reflexivity|]. split; [|split].
-    + unfold dcomp. cbn [fst snd]. repeat split; try assumption; lia.
-    + exact Hn.
-    + unfold comp_wf. cbn [fst snd]. repeat split; try assumption; lia.
-  - destruct t3 as [|c [|? ?]]; discriminate.
+  destruct (comps_okb_ok (length sg) sg (le_n _) Hc) as [cs [-> Hcs]].
+  exists cs. split; [reflexivity|]. split; [|exact Hcs]. intros ->. discriminate.
 Qed.
 
 Lemma prefixb_iff a b : NameModel.prefixb a b = true <-> prefix a b.
@@ -470,19 +513,17 @@ Proof.
   rewrite andb_true_iff, Z.eqb_eq, IH. tauto.
 Qed.
 
-Lemma keys_freeb_ok l : keys_freeb (map skey l) = true -> keys_free l.
+Lemma keys_freeb_ok l : keys_freeb (map stoks l) = true -> keys_free l.
 Proof.
   induction l as [|p l IH]; intros H i j q q' Ei Ej Hp; [destruct i; discriminate|].
   cbn [map keys_freeb] in H. apply andb_true_iff in H. destruct H as [Hall Hr].
   rewrite forallb_forall in Hall.
   destruct i as [|i], j as [|j]; cbn [nth_error] in *.
   - reflexivity.
-  - exfalso. inversion Ei; subst. specialize (Hall (skey q') (in_map skey _ _ (nth_error_In _ _ Ej))).
-    apply andb_true_iff in Hall. destruct Hall as [H1 _]. apply negb_true_iff in H1.
-    apply prefixb_iff in Hp. congruence.
-  - exfalso. inversion Ej; subst. specialize (Hall (skey q) (in_map skey _ _ (nth_error_In _ _ Ei))).
-    apply andb_true_iff in Hall. destruct Hall as [_ H2]. apply negb_true_iff in H2.
-    apply prefixb_iff in Hp. congruence.
+  - exfalso. inversion Ei; subst. specialize (Hall (stoks q') (in_map stoks _ _ (nth_error_In _ _ Ej))).
+    apply negb_true_iff in Hall. congruence.
+  - exfalso. inversion Ej; subst. specialize (Hall (stoks q) (in_map stoks _ _ (nth_error_In _ _ Ei))).
+    apply negb_true_iff in Hall. rewrite clashb_sym in Hp. congruence.
   - f_equal. exact (IH Hr i j q q' Ei Ej Hp).
 Qed.
 
@@ -500,24 +541,26 @@ Lemma port_okb_ok p : port_okb p = true -> pok p /\ sport_wf p /\ dok p /\ lok p
 Proof.
   induction p as [sg a mt s IHs] using sport_ind2. intros H. destruct s as [l|]; cbn [port_okb] in H.
   - apply andb_true_iff in H. destruct H as [H Hall]. apply andb_true_iff in H. destruct H as [Hsub Htab].
-    destruct (sub_okb_ok sg a Hsub) as [-> [c [-> [Hc [Hnd Hcw]]]]].
+    destruct (sub_okb_ok sg a Hsub) as [-> [cs [-> [Hcs Hgood]]]].
+    assert (Hc : Forall dcomp cs) by (eapply Forall_impl; [|exact Hgood]; intros ? [? _]; assumption).
+    assert (Hcw : Forall comp_wf cs) by (eapply Forall_impl; [|exact Hgood]; intros ? [_ ?]; assumption).
     apply okb_all_forall in Hall. rewrite forallb_forall in Hall.
     assert (HF : Forall (fun q => pok q /\ sport_wf q /\ dok q /\ lok q) l).
     { rewrite Forall_forall in *. intros q Hq. apply IHs; [exact Hq | apply Hall; exact Hq]. }
     assert (Hpok : Forall pok l) by (eapply Forall_impl; [|exact HF]; cbv beta; intros ? [? [? [? ?]]]; assumption).
     pose proof (keys_freeb_ok l Htab) as Hkf.
     split; [|split; [|split]].
-    + cbn [pok]. split; [reflexivity|]. exists c. auto.
+    + cbn [pok]. split; [reflexivity|]. exists cs. auto.
     + cbn [sport_wf]. split; [split; [left|]; reflexivity|]. split.
-      * exists [c]. split; [reflexivity|]. split; [constructor; [exact Hcw | constructor] | discriminate].
+      * exists cs. split; [reflexivity|]. split; assumption.
       * apply forall_all. eapply Forall_impl; [|exact HF]; cbv beta; intros ? [? [? [? ?]]]; assumption.
-    + cbn [dok]. split; [reflexivity|]. split; [exists c; auto|]. split; [apply keys_table_disjoint; assumption|].
+    + cbn [dok]. split; [reflexivity|]. split; [exists cs; auto|]. split; [apply keys_table_disjoint; assumption|].
       apply forall_all. eapply Forall_impl; [|exact HF]; cbv beta; intros ? [? [? [? ?]]]; assumption.
-    + cbn [lok]. split; [reflexivity|]. split; [exists c; auto|]. split; [apply keys_lookup_disjoint; assumption|].
+    + cbn [lok]. split; [reflexivity|]. split; [exists cs; auto|]. split; [apply keys_lookup_disjoint; assumption|].
       apply forall_all. eapply Forall_impl; [|exact HF]; cbv beta; intros ? [? [? [? ?]]]; assumption.
   - unfold leaf_okb in H. apply andb_true_iff in H. destruct H as [H Ha]. apply andb_true_iff in H. destruct H as [H Hl].
     apply andb_true_iff in H. destruct H as [Hs Hf].
-    destruct (segs_okb_ok sg Hs) as [Hd [Hp Hw]]. destruct (argsb_ok a Ha) as [Haw Hty].
+    destruct (segs_okb_ok sg Hs) as [Hd Hw]. destruct (argsb_ok a Ha) as [Haw Hty].
     assert (Hne : sg <> []) by (destruct sg; [discriminate | discriminate]).
     pose proof (last_not_slashb_ok sg Hne Hl) as Hls.
     split; [|split; [|split]].
@@ -545,6 +588,85 @@ Proof.
   apply keys_lookup_disjoint; assumption.
 Qed.
 
+(* ---- every leaf the walk reports admits some type string ------------------------------------ *)
+(* (apropos does not look at types: C18_lookup needs no hypothesis about them) *)
+Fixpoint adm (p : sport) : Prop :=
+  match p with
+  | SPort _ a _ None => exists ty, admits a ty
+  | SPort _ _ _ (Some l) =>
+      (fix all (l : list sport) : Prop := match l with [] => True | x :: r => adm x /\ all r end) l
+  end.
+
+Lemma adm_all l :
+  (fix all (l : list sport) : Prop := match l with [] => True | x :: r => adm x /\ all r end) l -> Forall adm l.
+Proof. induction l as [|x r IH]; intros H; [constructor|]. destruct H. constructor; auto. Qed.
+
+Lemma argsb_admits a : argsb a = true -> exists ty, admits a ty.
+Proof.
+  intros H. destruct (argsb_ok a H) as [_ [tys [-> Ht]]]. destruct tys as [l|].
+  - pose proof Ht as Ht0. destruct Ht as [Hne Hall]. destruct l as [|t l]; [congruence|]. exists t. exists (Some (t :: l)).
+    split; [reflexivity|]. split; [exact Ht0|]. split; [|left; reflexivity].
+    inversion Hall as [|? ? Ht1 _]; subst. eapply Forall_impl; [|exact Ht1]. intros c [Hc _]. exact Hc.
+  - exists []. exists None. split; [reflexivity|]. split; [exact I|]. split; [constructor | exact I].
+Qed.
+
+Lemma port_okb_adm p : port_okb p = true -> adm p.
+Proof.
+  induction p as [sg a mt s IHs] using sport_ind2. intros H. destruct s as [l|]; cbn [port_okb adm] in *.
+  - apply andb_true_iff in H. destruct H as [_ Hall]. apply okb_all_forall in Hall. rewrite forallb_forall in Hall.
+    apply forall_all. rewrite Forall_forall in *. intros q Hq. apply IHs; [exact Hq | apply Hall; exact Hq].
+  - unfold leaf_okb in H. apply andb_true_iff in H. destruct H as [_ Ha]. apply argsb_admits. exact Ha.
+Qed.
+
+Lemma spec_port_admits q : forall ids pre id a,
+  adm q -> In (id, a) (spec_addrs_port ids pre q) ->
+  exists rest ty, id = ids ++ rest /\
+    match q with
+    | SPort _ args _ None => admits args ty
+    | SPort _ _ _ (Some l') => leaf_admits l' rest ty
+    end.
+Proof.
+  induction q as [sg args m s IHs] using sport_ind2. intros ids pre id a Hadm H.
+  destruct s as [l'|].
+  - rewrite spec_addrs_subtree in H. apply in_flat_map in H. destruct H as [x [_ H]].
+    cbn [adm] in Hadm. apply adm_all in Hadm.
+    assert (Htab : forall l i, Forall (fun q => forall ids pre id a,
+               adm q -> In (id, a) (spec_addrs_port ids pre q) ->
+               exists rest ty, id = ids ++ rest /\
+                 match q with
+                 | SPort _ args _ None => admits args ty
+                 | SPort _ _ _ (Some l') => leaf_admits l' rest ty
+                 end) l -> Forall adm l ->
+             In (id, a) (spec_table ids (pre ++ x) l i) ->
+             exists j q rest ty, nth_error l j = Some q /\ id = ids ++ (i + j)%nat :: rest /\
+               match q with
+               | SPort _ args _ None => admits args ty
+               | SPort _ _ _ (Some l') => leaf_admits l' rest ty
+               end).
+    { induction l as [|q r IHr]; intros i HF HA Hin; [contradiction|].
+      inversion HF as [|? ? Hq Hr]; subst. inversion HA as [|? ? Aq Ar]; subst.
+      cbn [spec_table] in Hin. apply in_app_or in Hin. destruct Hin as [Hin|Hin].
+      - destruct (Hq _ _ _ _ Aq Hin) as [rest [ty [-> Hre]]].
+        exists O, q, rest, ty. split; [reflexivity|]. split; [rewrite <- app_assoc, Nat.add_0_r; reflexivity | exact Hre].
+      - destruct (IHr (S i) Hr Ar Hin) as [j [q' [rest [ty [En [-> Hre]]]]]].
+        exists (S j), q', rest, ty. split; [exact En|]. split; [f_equal; f_equal; lia | exact Hre]. }
+    destruct (Htab l' O IHs Hadm H) as [j [q [rest [ty [En [-> Hre]]]]]].
+    exists (j :: rest), ty. split; [reflexivity|]. cbn [leaf_admits]. rewrite En.
+    destruct q as [sg' args' m' [l''|]]; exact Hre.
+  - cbn [spec_addrs_port] in H. apply in_map_iff in H. destruct H as [x [Heq Hx]]. inversion Heq; subst.
+    cbn [adm] in Hadm. destruct Hadm as [ty Hty]. exists [], ty. split; [rewrite app_nil_r; reflexivity | exact Hty].
+Qed.
+
+Lemma names_ok_leaf_admits root id a :
+  names_ok root = true -> In (id, a) (spec_addrs root) -> exists ty, leaf_admits root id ty.
+Proof.
+  unfold names_ok. intros H Hin. apply andb_true_iff in H. destruct H as [_ Hall]. rewrite forallb_forall in Hall.
+  assert (Hadm : adm (SPort [] [] None (Some root))).
+  { cbn [adm]. apply forall_all. rewrite Forall_forall. intros q Hq. apply port_okb_adm. apply Hall. exact Hq. }
+  unfold spec_addrs in Hin.
+  destruct (spec_port_admits _ _ _ _ _ Hadm Hin) as [rest [ty [-> Hre]]]. exists ty. exact Hre.
+Qed.
+
 (* ---- the theorems with the decidable hypothesis --------------------------------------------- *)
 Theorem walk_dispatchable_names hp tid root id a ty o :
   names_ok root = true -> tree_ok (to_tree hp tid root) ->
@@ -561,14 +683,17 @@ Proof.
   apply walk_dispatchable; assumption.
 Qed.
 
-Theorem walk_lookup_names root id a ty :
+Theorem walk_lookup_names root id a :
   names_ok root = true ->
   forall out b, walk None (map render_port root) [] = WOk out b ->
-  In (id, a) out -> leaf_admits root id ty ->
+  In (id, a) out ->
   apropos (map render_port root) a = AFound id.
 Proof.
-  intros H. destruct (names_ok_sound root H) as [Hwf [_ [_ [Hlok Hld]]]].
-  apply walk_lookup; assumption.
+  intros H out b Hwalk Hin. destruct (names_ok_sound root H) as [Hwf [_ [_ [Hlok Hld]]]].
+  assert (Hin' : In (id, a) (spec_addrs root)).
+  { rewrite (walk_enumerates root Hwf) in Hwalk. inversion Hwalk; subst. exact Hin. }
+  destruct (names_ok_leaf_admits root id a H Hin') as [ty Hty].
+  eapply walk_lookup; eassumption.
 Qed.
 
 (* non-vacuity: siblings sharing first characters, an enumerated sub-tree, a
@@ -596,17 +721,58 @@ Proof.
   do 45 right. left. reflexivity.
 Qed.
 
-(* ---- observation: a multi-component sub-tree name under the macro recursion callback ------ *)
-(* { "a/b/" -> { "x" } } with C04's tree model (rRecurCb: SNIP strips ONE component): the walk
-   reports ([0;0], "/a/b/x"); its dispatch reaches the sub-tree port only - the inner table
-   receives "b/x" - no leaf callback, matches = 0.  This is the shape the side conditions
-   of C09_dispatchable exclude (sub-tree ports of one component); names_ok says false. *)
-Definition ex_multi : list sport :=
-  [SPort [NameModel.Lit [97; 47; 98; 47]] [] None (Some [SPort [NameModel.Lit [120]] [] None None])].
+(* ---- digits in literal text ----------------------------------------------------------------- *)
+(* { "osc1a", "osc2a", "v2#3/x7:i", "p10/q/" -> { "b2", "c" } }: accepted (literal digits are
+   compared like any other literal character); { "a1", "a12" } is rejected (a prefix), and so is
+   the alias pair { "a#4b", "a01b" } ('#4' against a literal digit: C18_lookup_digit_alias_refuted) *)
+Definition ex_digits : list sport :=
+  [SPort [NameModel.Lit [111; 115; 99; 49; 97]] [] None None;
+   SPort [NameModel.Lit [111; 115; 99; 50; 97]] [] None None;
+   SPort [NameModel.Lit [118; 50]; NameModel.Enum 3; NameModel.Lit [47; 120; 55]] [58; 105] None None;
+   SPort [NameModel.Lit [112; 49; 48; 47]; NameModel.Lit [113; 47]] [] None
+         (Some [SPort [NameModel.Lit [98; 50]] [] None None; SPort [NameModel.Lit [99]] [] None None])].
 
-Example multicomponent_macro_refuted :
+Example ex_digits_ok :
+  names_ok ex_digits = true /\
+  names_ok [SPort [NameModel.Lit [97; 49]] [] None None; SPort [NameModel.Lit [97; 49; 50]] [] None None] = false /\
+  (exists out b, walk None (map render_port ex_digits) [] = WOk out b /\ length out = 7%nat /\
+                 In ([2%nat], [47; 118; 50; 50; 47; 120; 55]) out /\
+                 In ([3%nat; 0%nat], [47; 112; 49; 48; 47; 113; 47; 98; 50]) out) /\
+  apropos (map render_port ex_digits) [47; 118; 50; 50; 47; 120; 55] = AFound [2%nat] /\
+  apropos (map render_port ex_digits) [47; 112; 49; 48; 47; 113; 47; 98; 50] = AFound [3%nat; 0%nat].
+Proof.
+  split; [vm_compute; reflexivity|]. split; [vm_compute; reflexivity|].
+  split; [|split; vm_compute; reflexivity].
+  eexists. eexists. split; [vm_compute; reflexivity|]. split; [reflexivity|].
+  split; [do 4 right; left; reflexivity | do 5 right; left; reflexivity].
+Qed.
+
+(* ---- a multi-component sub-tree name under the macro recursion callback -------------------- *)
+(* { "a/b/" -> { "x" } }: the walk reports ([0;0], "/a/b/x"); with SNIP skipping as many
+   components as the name has (DispatchModel.snipk) its dispatch reaches the leaf, and the
+   name is accepted by names_ok (structured by components: "a/" "b/").  The behaviour
+   before the fix is kept in SnipRegress.v. *)
+Definition ex_multi : list sport :=
+  [SPort [NameModel.Lit [97; 47]; NameModel.Lit [98; 47]] [] None (Some [SPort [NameModel.Lit [120]] [] None None])].
+
+(* "a#3/b#2/c/" -> { "e", "v#2/w#11:i" } *)
+Definition ex_multi2 : list sport :=
+  [SPort [NameModel.Lit [97]; NameModel.Enum 3; NameModel.Lit [47]; NameModel.Lit [98]; NameModel.Enum 2; NameModel.Lit [47];
+          NameModel.Lit [99; 47]] [] None
+     (Some [SPort [NameModel.Lit [101]] [] None None;
+            SPort [NameModel.Lit [118]; NameModel.Enum 2; NameModel.Lit [47; 119]; NameModel.Enum 11] [58; 105] None None])].
+
+Example multicomponent_macro :
   walk None (map render_port ex_multi) [] = WOk [([0%nat; 0%nat], [47; 97; 47; 98; 47; 120])] [47] /\
   (let d := dispatch (to_tree no_hash_search one_id ex_multi) [47; 97; 47; 98; 47; 120] [] true 0 in
-   matches d = 0 /\ leaf_count (log d) = 0 /\ length (log d) = 1%nat) /\
-  names_ok ex_multi = false.
-Proof. split; [vm_compute; reflexivity|]. split; [|vm_compute; reflexivity]. vm_compute. repeat split; reflexivity. Qed.
+   matches d = 1 /\ leaf_count (log d) = 1 /\ length (log d) = 2%nat) /\
+  names_ok ex_multi = true /\ names_ok ex_multi2 = true /\
+  (exists out b, walk None (map render_port ex_multi2) [] = WOk out b /\ length out = 138%nat /\
+                 In ([0%nat; 1%nat], [47; 97; 50; 47; 98; 49; 47; 99; 47; 118; 49; 47; 119; 49; 48]) out) /\
+  apropos (map render_port ex_multi2) [47; 97; 50; 47; 98; 49; 47; 99; 47; 118; 49; 47; 119; 49; 48] = AFound [0%nat; 1%nat].
+Proof.
+  split; [vm_compute; reflexivity|]. split; [vm_compute; repeat split; reflexivity|].
+  split; [vm_compute; reflexivity|]. split; [vm_compute; reflexivity|]. split; [|vm_compute; reflexivity].
+  eexists. eexists. split; [vm_compute; reflexivity|]. split; [reflexivity|].
+  do 137 right. left. reflexivity.
+Qed.
